@@ -7,8 +7,8 @@ the tree itself, every state is one node `cur` carrying `txt` = its path in the 
 sequences of string pieces, every edge is labelled with the ONE path step leading from the
 parent to the child.  TLC decides in the model that every scheme evaluates to exactly {cur}
 (with the axes / node tests / positional predicates of XDM.tla) and that the texts are
-injective, and refutes the same law for the counting algorithm of the pinned tree
-(get_child_position) in the negative configuration `impl`.
+injective, and refutes the same law for the former counting algorithm of get_child_position
+(before fix bbeb72e: by node class / by bare name) in the negative configuration `impl`.
 
 Binding (public API only): for every state the real strings
   (a) select(node_tree, 'path(.)', item=node)  with XPath30Parser / XPath31Parser, the 0-ary
@@ -71,7 +71,7 @@ CONFIGS = {
         ('N5-R3-pos', dict(N=5, Kinds={"a0", "an", "c", "pp", "t"}, RootCfg="R3", Decls={"p"}, DocLevel=False)),
     ],
 }
-# the counting algorithm of the pinned tree, modelled in the spec (ImplPos), must be REFUTED by TLC
+# the former counting algorithm (before fix bbeb72e), modelled in the spec (ImplPos), must be REFUTED by TLC
 NEGATIVE = ('impl', dict(N=3, Kinds={"a0", "pp", "pa"}, RootCfg="R1", Decls={"none"}, DocLevel=False))
 # ... and accepted where its defects cannot show (one PI target, not named like an element)
 NEGATIVE_CTRL = ('impl-ctrl', dict(N=3, Kinds={"a0", "b0", "pp", "t", "c"}, RootCfg="R1", Decls={"none"}, DocLevel=False))
